@@ -134,10 +134,18 @@ def run_suite(ctx, name, cases, report_all_classes=True, owned_only=True, hooks=
 
 # ---------------------------------------------------------------- replay of one stored case
 def replay_case(ctx, rp):
-    c = Case([], rp["lines"])
+    """Re-run one stored case against the current tree: print what the implementation does now and JUDGE it again with the
+    specification (same suite code as the check); returns the exit status (1 = the violation is still there, 0 = gone / excused)."""
+    c = Case(rp.get("prog") or [], rp["lines"], focus=rp.get("focus", 0))
     rec = asmio.assemble(list(c.lines))
     print(json.dumps({k: rec[k] for k in ("outcome", "msg", "exc", "site", "obs", "image", "symtab", "origin")}, indent=1))
-    return rec
+    if rp.get("kind") != "asm":
+        return 0
+    if c.prog:
+        run_suite(ctx, "replay", [c])
+    else:
+        run_text_suite(ctx, "replay", [c.lines])
+    return ctx.finish(write_evidence=False)
 
 
 def run_text_suite(ctx, name, programs):
